@@ -5,6 +5,9 @@ import ereduce
 import eraw
 import eunits
 import i64table
+import ewho
+import esort
+import eskip
 
 LEVEL = "E-CANON + E-TABLE.reduce + E-RAW"
 
@@ -34,4 +37,15 @@ def run(ctx):
     ctx.explain("E-NUM.f64: MTBDD terminals are hash-consed by bitwise equality of F64, which is numeric equality only for "
                 "normalised values: F64 is built from constants or through the normalising From<f64> only.")
     i64table.check_f64_constructors(ctx, F)
+    ctx.explain("Canonicity after reorderings rests on the reordering code keeping the table keyed correctly: E-UNITS (no "
+                "variable/level mix-up in the managers, oxidd-reorder and the rules crates), E-WHO (invariant-breaking "
+                "primitives called from oxidd-reorder only), E-PERM (+ .relabel: every relabelled level is visited), "
+                "E-TABLE.skip (skipped-level cofactors per kind: a wrong split re-inserts nodes denoting another function).")
+    nfn, _ = eunits.run(ctx, F, crates=("oxidd_manager_index", "oxidd_manager_pointer", "oxidd_reorder", "oxidd_rules_bdd",
+                                        "oxidd_rules_zbdd", "oxidd_rules_mtbdd", "oxidd_rules_tdd"))
+    ctx.floor("E-UNITS", "function bodies analysed", nfn, 800)
+    ewho.run(ctx, F)
+    esort.run(ctx, F)
+    esort.check_relabel_worklist(ctx, F)
+    eskip.run(ctx, F)
     ctx.not_decided = "the 'iff' over histories (gc, slot reuse, reordering); handle equality across managers"
